@@ -22,7 +22,8 @@ for p in props:
             for node in tree.body:
                 if isinstance(node, ast.Assign) and any(getattr(t, "id", None) == "MANIFEST_ENTRY" for t in node.targets):
                     entry = ast.literal_eval(node.value)
-    if entry and not entry.get("disabled"):
+    claimed = json.loads((V / "tools" / "claimed.json").read_text())
+    if entry and not entry.get("disabled") and pid in claimed:
         checks.append({
             "property_id": pid,
             "quick_cmd": f"./check {pid} --tier quick",
